@@ -33,6 +33,12 @@
 #define VF_BS (1024u << LOGBS)
 #define VF_DPB (VF_BS / DESC)
 #define VF_FIRST ((LOGBS == 0) ? 1u : 0u)
+/* IPG (inodes per group) concrete per query when defined: multiplication by a constant */
+#ifdef IPG
+#define VF_IPG ((__u32) IPG)
+#else
+#define VF_IPG IN.ipg
+#endif
 #define VF_SENTINEL ((errcode_t) 0x7e57)
 
 struct vf_in {
@@ -59,19 +65,30 @@ errcode_t ext2fs_resize_inode_bitmap2(__u64 new_end, __u64 new_real_end, ext2fs_
 static int ref_is_power(__u64 g, __u64 b)
 {
 	__u64 p = b;
-	int k;
-	for (k = 0; k < 24; k++) {
-		if (p == g) return 1;
-		if (p > g) return 0;
+	int k, r = 0;
+	for (k = 0; k < 24; k++) {	/* p is a constant in every iteration */
+		if (p == g) r = 1;
 		p *= b;
 	}
-	return 0;
+	return r;
 }
 static int ref_has_backup(__u64 g)
 {
 	if (g <= 1 || !IN.sparse) return 1;
 	return ref_is_power(g, 3) || ref_is_power(g, 5) || ref_is_power(g, 7);
 }
+#ifndef REAL_HAS_SUPER
+/* STUB: ext2fs_bg_has_super() replaced by the format rule it implements (assume-guarantee: the real function is
+ * decided against this rule for all 2^32 groups in C20/bg_has_super); -DREAL_HAS_SUPER links the real one */
+int ext2fs_bg_has_super(ext2_filsys fs, dgrp_t group)
+{
+	if (group == 0) return 1;
+	if (ext2fs_has_feature_sparse_super2(fs->super))
+		return group == fs->super->s_backup_bgs[0] || group == fs->super->s_backup_bgs[1];
+	return ref_has_backup(group);
+}
+#endif
+
 /* reference: is a size acceptable as it stands?  (not available with sparse_super2, see main) */
 static int ref_acceptable(__u64 size)
 {
@@ -82,7 +99,7 @@ static int ref_acceptable(__u64 size)
 		ovh += 1 + (groups + VF_DPB - 1) / VF_DPB + IN.rsv_gdt;
 	if (rem && groups == 1 && rem < ovh) return 0;
 	if (rem && groups > 1 && rem < ovh + 50) return 0;
-	if (groups * IN.ipg > 0xffffffffULL) return 0;
+	if (groups * VF_IPG > 0xffffffffULL) return 0;
 	return 1;
 }
 
@@ -95,7 +112,7 @@ static void vf_fill(struct ext2_super_block *sb)
 	sb->s_first_data_block = VF_FIRST;
 	sb->s_blocks_per_group = BPG;
 	sb->s_clusters_per_group = BPG;
-	sb->s_inodes_per_group = IN.ipg;
+	sb->s_inodes_per_group = VF_IPG;
 	sb->s_reserved_gdt_blocks = IN.rsv_gdt;
 	sb->s_desc_size = (DESC == 32) ? 0 : DESC;
 	sb->s_feature_incompat = (DESC == 32) ? 0 : EXT4_FEATURE_INCOMPAT_64BIT;
@@ -121,9 +138,9 @@ static void vf_fs_init(ext2_filsys fs, struct ext2_super_block *sb)
 
 int main(void)
 {
-	blk64_t pred, again, settled;
-	errcode_t rc;
-	__u64 groups, rem;
+	blk64_t pred, again = 0, settled = 0;
+	errcode_t rc = 0;
+	__u64 groups = 0, rem = 0;
 
 	VF_INPUT(IN);
 	/* BOUND: block size 1024<<LOGBS, BPG blocks per group, descriptor size DESC: concrete per query; sizes < 2^SBITS */
@@ -132,6 +149,9 @@ int main(void)
 	ASSUME(IN.old_free <= IN.old_blocks && IN.old_rsv <= IN.old_blocks);
 	/* ASSUME: geometry as mke2fs produces it: inodes per group a multiple of 8, 8..8*blocksize; inode table smaller
 	 * than half a group; reserved GDT blocks <= blocksize/4 */
+#ifdef IPG
+	ASSUME(IN.ipg == IPG);
+#endif
 	ASSUME(IN.ipg >= 8 && IN.ipg <= 8 * VF_BS && (IN.ipg & 7) == 0);
 	ASSUME(IN.itb >= 1 && IN.itb <= BPG / 2);
 	ASSUME(IN.rsv_gdt <= VF_BS / 4);
@@ -142,32 +162,21 @@ int main(void)
 
 	pred = IN.req;
 	adjust_new_size(&vf_fs, &pred);			/* what main() predicts */
+	PROP(ext2fs_blocks_count(&vf_sb) == IN.old_blocks && vf_sb.s_inodes_count == 0, "adjust_new_size does not touch the superblock");
+#if CHECK == 1
+	/* ---- agreement of the two real functions, and the superblock counters of the accepted geometry */
 	rc = adjust_fs_info(&vf_fs2, &vf_old, 0, IN.req);	/* what resize_fs() settles on */
 	settled = ext2fs_blocks_count(&vf_sb2);
-
 	PROP(rc == VF_SENTINEL || rc == EXT2_ET_TOOSMALL || rc == EXT2_ET_TOO_MANY_INODES, "adjust_fs_info: only the documented refusals");
-	PROP(ext2fs_blocks_count(&vf_sb) == IN.old_blocks && vf_sb.s_inodes_count == 0, "adjust_new_size does not touch the superblock");
 	if (rc != VF_SENTINEL) {
 		PROP(pred == IN.req, "refused geometry: adjust_new_size leaves the request unchanged");
 	} else {
 		PROP(pred == settled, "adjust_new_size predicts exactly the size adjust_fs_info settles on");
 		groups = (settled - VF_FIRST + BPG - 1) / BPG;
-		rem = (settled - VF_FIRST) % BPG;
-		PROP(settled <= IN.req && settled > VF_FIRST, "settled size is not larger than requested and not empty");
 		PROP(vf_fs2.group_desc_count == groups && groups >= 1, "group count = ceil((size - first_data_block) / blocks_per_group)");
 		PROP(vf_fs2.desc_blocks == (groups + VF_DPB - 1) / VF_DPB, "descriptor blocks = ceil(groups / descriptors per block)");
-		PROP(settled == IN.req || rem == 0, "a reduced size ends on a group boundary");
-		PROP(IN.req - settled < 2ULL * BPG, "the reduction is less than two groups");
-		PROP((__u64) IN.ipg * groups <= 0xffffffffULL && vf_sb2.s_inodes_count == IN.ipg * groups,
+		PROP((__u64) VF_IPG * groups <= 0xffffffffULL && vf_sb2.s_inodes_count == VF_IPG * groups,
 		     "inode count = inodes per group * groups, without 32-bit wrap");
-		if (!IN.sparse2) {
-			PROP(ref_acceptable(settled), "the settled size satisfies the last-group and inode-count rules of the format");
-			if (ref_acceptable(IN.req))
-				PROP(settled == IN.req, "an acceptable request is not reduced");
-		}
-		again = settled;
-		adjust_new_size(&vf_fs, &again);
-		PROP(again == settled, "settling is idempotent");
 		/* free blocks follow the size delta (32-bit counter without the 64bit feature) */
 		{
 			__u64 want = IN.old_free + settled - IN.old_blocks;
@@ -175,6 +184,28 @@ int main(void)
 			PROP(ext2fs_free_blocks_count(&vf_sb2) == want, "free block count changes by exactly the size delta");
 		}
 	}
+#elif CHECK == 2
+	/* ---- the predicted size against the format rules stated in the harness */
+	(void) rc; (void) settled;
+	settled = pred;
+	groups = (settled - VF_FIRST + BPG - 1) / BPG;
+	rem = (settled - VF_FIRST) % BPG;
+	PROP(settled <= IN.req && settled > VF_FIRST, "settled size is not larger than requested and not empty");
+	PROP(settled == IN.req || rem == 0, "a reduced size ends on a group boundary");
+	PROP(IN.req - settled < 2ULL * BPG, "the reduction is less than two groups");
+	/* ASSUME: no sparse_super2 in this check (the last-group rule then depends on s_backup_bgs bookkeeping that
+	 * adjust_fs_info() does later; agreement of the two functions under sparse_super2 is in CHECK 1) */
+	ASSUME(!IN.sparse2);
+	if (ref_acceptable(IN.req))
+		PROP(settled == IN.req, "an acceptable request is not reduced");
+	if (settled != IN.req)
+		PROP(ref_acceptable(settled), "a reduced size satisfies the last-group and inode-count rules of the format");
+	again = settled;
+	adjust_new_size(&vf_fs, &again);
+	PROP(again == settled, "settling is idempotent");
+#else
+#error CHECK
+#endif
 	VF_END();
 	return 0;
 }
